@@ -37,7 +37,7 @@ ASSUMPTIONS = [
     "a front-end crash or error exit is an outcome and is compared like any other",
 ]
 PROBES = ["nonempty_tables", "hashseed_varied", "dirent_varied", "heap_varied", "ws_sibling", "ws_otherfs", "ws_relative", "ws_symlink",
-          "ws_symlink_inner", "ws_named_externs", "ws_named_src", "ws_named_default",
+          "cwd_varied", "ws_symlink_inner", "ws_named_externs", "ws_named_src", "ws_named_default",
           "history_same_project", "history_other_project", "history_crashed_run", "multi_file_project", "corpus_project",
           "generated_project", "sub_run", "sub_semantic", "taint_phase_ran"]
 # the same check again, smaller, in interpreters started with assertions stripped (python -O / PYTHONOPTIMIZE=1)
@@ -108,7 +108,9 @@ def gen_knobs(rng, tier):
 
 def _gen_variant(rng, baseline):
     v = dict(baseline)
-    dims = rng.sample(["hashseed", "dirent", "heap", "ws", "history"], rng.choice([1, 1, 1, 2, 3]))
+    dims = rng.sample(["hashseed", "dirent", "heap", "ws", "history", "cwd"], rng.choice([1, 1, 1, 2, 3]))
+    if "cwd" in dims:
+        v["cwd"] = rng.choice(["elsewhere", "project"])       # where the process is started from (all paths stay absolute)
     if "hashseed" in dims or rng.random() < 0.5:
         v["hashseed"] = rng.randrange(1, 2 ** 32 - 1)
     if "dirent" in dims:
@@ -231,6 +233,9 @@ def execute(trace):
             # ---- workspace location of this variant
             wsk = v.get("ws", "same")
             cwd = B
+            if v.get("cwd") and wsk != "relative":
+                cwd = {"elsewhere": os.path.join(B, "some", "other", "start_dir"), "project": os.path.join(B, "projA")}[v["cwd"]]
+                os.makedirs(cwd, exist_ok=True)
             if wsk == "same":
                 w_arg = os.path.join(B, "ws_same")
             elif wsk == "sibling":
@@ -321,6 +326,9 @@ def execute(trace):
                 hit("ws_" + wsk)
             if v.get("history", []) != base_v.get("history", []):
                 dims.append("history")
+            if v.get("cwd") != base_v.get("cwd") and wsk != "relative":
+                dims.append("cwd")
+                hit("cwd_varied")
             states.add(h64(f"{proj_digest}|{k['sub']}|{k['flags']}|{dims}"))
             same_path = wsk == base_v.get("ws", "same")
             col = 0 if same_path else 1
@@ -382,7 +390,7 @@ def simplify(trace):
         base = ops[vidx[0]]
         for i in vidx[1:]:
             v = ops[i]
-            for dim, key in (("history", "history"), ("ws", "ws"), ("heap", "heap_pad"), ("dirent", "dirent"), ("hashseed", "hashseed")):
+            for dim, key in (("history", "history"), ("ws", "ws"), ("cwd", "cwd"), ("heap", "heap_pad"), ("dirent", "dirent"), ("hashseed", "hashseed")):
                 if v.get(key) != base.get(key):
                     yield dict(trace, ops=ops[:i] + [dict(v, **{key: base.get(key)})] + ops[i + 1:])
             if len(v.get("history", [])) > 1:
